@@ -344,6 +344,17 @@ def sei_order(ctx):
                 out.append(Inst("SEI-ORDER", "%s:write@%d" % (nm, n), ok, "%s:%d" % (b.fn["file"], st["line"]),
                                 "session_expiry_interval := a value %s, %s" % ("of the CONNACK" if from_connack else "of the request", "after handle_connack (%s)" % [b.site(h) for h in after] if after else "before any response is handled"),
                                 "the requested interval is stored before the CONNACK is looked at; what the CONNACK grants is not overwritten"))
+        # ... and on every way to the CONNACK: a store that is skipped when the request carries no interval leaves the
+        # interval of an earlier connection in force (absent means 0)
+        wr = [i for i in sorted(b.reach) for st in b.blocks[i]["stmts"]
+              if st["k"] == "assign" and place_fields(st["lhs"]) and place_fields(st["lhs"])[-1] == (CONNECTION, "session_expiry_interval")
+              and not any(a[0] == "field" and str(a[1]).endswith("ConnackRx") for a in b.rv_atoms(st["rv"]))]
+        if wr and hcs:
+            rs = b.reachable_from(0, avoid=wr)
+            skipped = [h for h in hcs if h in rs]
+            out.append(Inst("SEI-ORDER", "%s:stored-on-every-path" % nm, not skipped, b.site(wr[0]),
+                            "the CONNACK is handled %s" % ("only after the requested interval (or 0) has been stored" if not skipped else "on a path that stores no interval (%s)" % [b.site(h) for h in skipped]),
+                            "the interval in force is the requested one, 0 when the request carries none; never the one of an earlier connection"))
     if n == 0:
         raise AnchorLost("a write of Connection.session_expiry_interval in connect()")
     return out
